@@ -25,7 +25,7 @@ PB_RT = ["common", "ref_thrift", "ref_pb", "pb", "insts_pb"]
 GEN_PB = [("p_scalars", "p_scalars.proto", "plain")]
 PB_GEN = PB_RT + ["gen_pb", "pbgen", "insts_pbgen"]
 
-GEN_THRIFT = [("t_basic", "t_basic.thrift", "plain"), ("t_evolve_r", "t_evolve_r.thrift", "plain")]
+GEN_THRIFT = [("t_basic", "t_basic.thrift", "plain"), ("t_evolve_r", "t_evolve_r.thrift", "plain"), ("t_unknown", "t_unknown.thrift", "keep")]
 
 PROPS = {
     "C10": dict(
@@ -36,6 +36,15 @@ PROPS = {
     "C11": dict(
         modules=["common", "protos", "ref_thrift", "l0", "l1", "skip", "c11", "insts_c11"],
         outside="value trees beyond the 21 shapes of harness/src/skip.rs (containers <= 2 elements, binaries <= 2 bytes); generated types; payloads at or above the 4 KiB zero-copy threshold; a transport that already holds a prefix (window not at the transport's first byte) - not part of the documented contract",
+    ),
+    "C12": dict(
+        modules=["common", "protos", "ref_thrift", "asyncp", "insts_c12"],
+        outside="everything but single primitive/string/bytes/field-header reads of the async BINARY reader under 2-chunk delivery with one optional Pending; compact and LE async readers; emitted decode_async; the async skipper",
+    ),
+    "C13": dict(
+        modules=["common", "protos", "ref_thrift", "gen_thrift", "c13", "insts_c13"],
+        gen=GEN_THRIFT,
+        outside="IDL documents other than corpus/t_unknown.thrift; more than one unknown field; unknown fields inside list elements; the compact protocol (retention is emitted for the binary protocols only)",
     ),
     "C08": dict(
         modules=["common", "protos", "ref_thrift", "gen_thrift", "c08", "insts_c08"],
@@ -49,7 +58,8 @@ PROPS = {
     ),
     "PROBE": dict(modules=["common","protos","ref_thrift","l0","l1","probe"]),
     "C09": dict(
-        modules=["common", "protos", "ref_thrift", "l0", "l1", "total", "insts_c09"],
+        modules=["common", "protos", "ref_thrift", "l0", "l1", "total", "insts_c09", "gen_thrift", "cuts", "insts_cuts"],
+        gen=GEN_THRIFT,
         outside="inputs longer than the per-reader bound (<= 17 bytes); whole emitted decoders on arbitrary bytes (only skeleton+corruption, see harness names); stack depth of recursive schemas; the async readers (C12)",
     ),
     "C07": dict(
@@ -127,6 +137,8 @@ DESCR = [
                     bound="reference-encoded: required field + record %s at position %s; payload bytes symbolic" % (m.group(1), m.group(2)))),
     (r"c08_\w_required_absent_(\w+)_(\w+)$", lambda m: dict(fns="emitted Rec::decode", bound="only record %s present (required field absent)" % m.group(1))),
     (r"c08_\w_union_(\w+)_(bin|le|unchecked)$", lambda m: dict(fns="emitted <t_evolve_r::Choice as Message>::decode via %s" % proto(m.group(2)), bound="union configuration %s; payloads symbolic" % m.group(1))),
+    (r"c09_\w_gen_inner_cut(\d+)_(\w+)$", lambda m: dict(fns="emitted <t_basic::Inner as Message>::decode via %s" % proto(m.group(2)), bound="valid 17-byte skeleton (i32 and string payload symbolic) cut at offset %s" % m.group(1))),
+    (r"c09_\w_gen_inner_corrupt_len", lambda m: dict(fns="emitted Inner::decode, read_faststr, split_to_checked", bound="valid skeleton with the string length prefix replaced by any 32-bit value")),
     (r"c09_\w_read_r_(\w+?)_(bin|le|compact)$",
      lambda m: dict(fns="%s: read_%s" % (proto(m.group(2)), m.group(1)), bound="arbitrary buffer of symbolic length up to the per-reader bound (3..17 bytes)")),
     (r"c10_\w_varint_arbitrary_(\d+)", lambda m: dict(fns="prost::encoding::decode_varint (+_slice, +_slow)", bound="arbitrary slice of symbolic length <= %s vs reference LEB128 decoder" % m.group(1))),
